@@ -27,6 +27,7 @@ cov = res["coverage"]
 cov.pop("samples", None)
 json.dump(cov, open("/tmp/gt/cov.json","w"), indent=1, default=str); print(json.dumps(cov, indent=1, default=str)[:4000])
 print("unexplained mismatches:", len(res["unexplained_mismatches"]))
+json.dump(res["unexplained_mismatches"], open("/tmp/gt/um_%s.json" % prop, "w"), indent=1, default=str)
 for u in res["unexplained_mismatches"][:3]:
     print(json.dumps(u, default=str)[:1500])
 os.makedirs("/tmp/gt/pf", exist_ok=True)
